@@ -3,7 +3,7 @@
     buffer and hold for both; the statements below are specific to the comparison. *)
 From Coq Require Import ZArith List Lia.
 From OW Require Import Arrays.IntOps Arrays.View Arrays.Ops Arrays.IndexProofs Arrays.AffineProofs
-  Arrays.ContigProofs Arrays.MemProofs Arrays.ReshapeProofs Arrays.Exec Arrays.HistoryProofs.
+  Arrays.ContigProofs Arrays.MemProofs Arrays.ReshapeProofs Arrays.Exec Arrays.HistoryProofs Arrays.GoCProofs.
 Import ListNotations.
 Local Open Scope Z_scope.
 
@@ -47,9 +47,32 @@ Theorem C03_access_after_any_history : forall ops s s' a rd v i,
 Proof. exact access_after_any_history. Qed.
 Print Assumptions C03_access_after_any_history.
 
-(** NOT proved (C03_entry_point_partial): equality of whole operation histories on the two
-    back-ends and of the exported C entry point (RunSingleModel) with the Go API are
-    established by the lock-step correspondence run and the cdriver run only. *)
+(** WHOLE HISTORIES.  The same history run with every root Go-allocated and with every root
+    wrapped around a caller-provided C buffer gives, step by step, the same result (value,
+    values, flag, new array, error) or the same panic, the same contents of every root buffer
+    and the same elements of every live array -- for every history (any length, ANY arguments:
+    out-of-range indices, negative steps, ill-shaped slices) of element-level operations ... *)
+Theorem C03_go_c_histories_agree : forall ops, Forall in_fragment ops ->
+  arr_run_history arr_init_state (map (set_backing false) ops) =
+  arr_run_history arr_init_state (map (set_backing true) ops).
+Proof. exact go_c_histories_agree. Qed.
+(** ... and for histories that also use Apply, Unroll, ApplySlice and CopyFrom, provided each
+    of those is applied to in-box views with steps >= 1 (Apply: a valid non-empty run inside
+    the axis; ApplySlice / CopyFrom: source and destination in different roots) -- the decidable
+    guard [guardb]; GoCProofs.v shows by a concrete history per clause that each clause of the
+    guard is needed (there the model's two back-ends differ, as do Reshape on out-of-range
+    indices and the write through an unrolled slice: see the header of that file) *)
+Theorem C03_go_c_histories_agree_guarded : forall ops,
+  guarded arr_init_state (map (set_backing false) ops) = true ->
+  arr_run_history arr_init_state (map (set_backing false) ops) =
+  arr_run_history arr_init_state (map (set_backing true) ops).
+Proof. exact go_c_histories_agree_guarded. Qed.
+Print Assumptions C03_go_c_histories_agree_guarded.
+
+(** NOT proved (C03_entry_point_partial): the reshape family and the whole-array helpers in
+    whole-history form (element laws for them: C02), and equality of the exported C entry point
+    (RunSingleModel) with the Go API, are established by the lock-step correspondence run and
+    the cdriver run only. *)
 Example C03_nonvacuous : exists h a,
   wf_arr (V:=Z) h a [2;3] (mkAview [0;0] [1;1] [2;3]) /\ get h a [1;2] = Some 6.
 Proof.
